@@ -2,6 +2,7 @@ package utils
 
 import (
 	"runtime"
+	"sync"
 	"time"
 
 	"github.com/zishang520/engine.io/v2/verifhook"
@@ -12,11 +13,20 @@ type Timer struct {
 	sleep  time.Duration
 	fn     func()
 	stopCh chan struct{}
+
+	// mu makes "mark stopped + stop the runtime timer" atomic with respect to
+	// an interval's "check stopped + re-arm".
+	mu      sync.Mutex
+	stopped bool
 }
 
 func (t *Timer) Refresh() *Timer {
+	t.mu.Lock()
+	defer t.mu.Unlock()
+
 	defer t.timer.Reset(t.sleep)
 
+	t.stopped = false
 	if !t.timer.Stop() {
 		go t.fn()
 	}
@@ -62,7 +72,12 @@ func ClearTimeout(timer *Timer) {
 }
 
 func (t *Timer) Stop() {
-	if t.timer.Stop() {
+	t.mu.Lock()
+	t.stopped = true
+	pending := t.timer.Stop()
+	t.mu.Unlock()
+
+	if pending {
 		if verifhook.Enabled {
 			verifhook.Point("timer.Stop.afterStop", t)
 		}
@@ -83,7 +98,15 @@ func SetInterval(fn func(), sleep time.Duration) *Timer {
 				if verifhook.Enabled {
 					verifhook.Point("timer.interval.afterTick", timer)
 				}
+				// a Stop issued after this tick was taken found an expired timer
+				// and did not signal: do not re-arm behind its back.
+				timer.mu.Lock()
+				if timer.stopped {
+					timer.mu.Unlock()
+					return
+				}
 				timer.timer.Reset(timer.sleep)
+				timer.mu.Unlock()
 				go fn()
 			case <-timer.stopCh:
 				return
